@@ -137,22 +137,50 @@ def r3_r4(ctx, facts):
         r4.instance(nm, ok, "on the mapped path orphan() must call %s on every path" % nm, cs[0].span if cs else ob.span)
 
 
+class _Src:
+    """where a future is created in a body: a call, or (for a new async fn, whose trivial constructor body is spliced in) the coroutine aggregate"""
+    def __init__(self, bb, dest, span):
+        self.bb, self.dest, self.span = bb, dest, span
+
+
+def frame_source(facts, b):
+    """[(body, source)] from the reader down to the call of read_response_frame: the call itself, or - if the read was moved into a
+    new `async fn` - the place that creates that helper's future followed by the read inside the helper"""
+    direct = [c for c in b.calls_to("scylla_cql::frame::read_response_frame") if not (c.name or "").endswith("{closure#0}")]
+    if len(direct) == 1:
+        return [(b, _Src(direct[0].bb, direct[0].dest, direct[0].span))]
+    for hb, _ops in new_async_helpers(facts, b):
+        inner = frame_source(facts, hb)
+        if not inner:
+            continue
+        fn_path = hb.path[:-len("::{closure#0}")]
+        mk = [_Src(c.bb, c.dest, c.span) for bb, c in b.calls() if bb in b.live_blocks and ((c.callee.get("res") or "") == fn_path or (c.name or "") == fn_path)]
+        mk += [_Src(bb, st[1], b.stmt_span(st)) for bb in sorted(b.live_blocks) for st in b.stmts(bb)
+               if st[0] == "A" and st[2][0] == "agg" and st[2][1][0] == "coroutine" and st[2][1][1] == hb.path]
+        if len(mk) == 1:
+            return [(b, mk[0])] + inner
+    return []
+
+
 def r5(ctx, facts):
     r = ctx.rule("R5", "reader delivers the frame it just read; unsolicited frame breaks the connection", floor=4)
     b = facts.one(r"^scylla::network::connection::Connection::reader::\{closure#0\}$")
     df = df_of(b, facts)
-    reads = b.calls_to("scylla_cql::frame::read_response_frame")
-    reads = [c for c in reads if not c.name.endswith("{closure#0}")]
+    chain = frame_source(facts, b)
+    reads = [chain[0][1]] if chain else []
     sends = b.calls_to("tokio::sync::oneshot::Sender::<T>::send")
     if len(reads) != 1 or len(sends) != 1:
         raise AnchorLost("reader: expected one read_response_frame and one response_sender.send, found %d/%d" % (len(reads), len(sends)))
     send = sends[0]
     aggs = [(bb, s) for bb in b.live_blocks for s in b.stmts(bb) if s[0] == "A" and s[2][0] == "agg" and s[2][1][0] == "adt" and s[2][1][1] == C + "TaskResponse"]
-    if len(aggs) != 1:
-        raise AnchorLost("reader: expected one TaskResponse aggregate")
-    resp_local = aggs[0][1][1][0]
     seen, calls, _ = backward_slice(b, send.args[1])
-    r.instance("sent-value-is-this-frame", resp_local in seen, "the value sent to the handler must be the TaskResponse built from the frame just read", send.span)
+    if len(aggs) == 1:
+        from_frame = aggs[0][1][1][0] in seen and reads[0].dest[0] in backward_slice(b, ["m", [aggs[0][1][1][0], []]])[0]
+    elif not aggs and len(chain) > 1:
+        from_frame = reads[0].dest[0] in seen       # the TaskResponse is built inside the helper whose result is awaited here
+    else:
+        raise AnchorLost("reader: expected one TaskResponse aggregate")
+    r.instance("sent-value-is-this-frame", from_frame, "the value sent to the handler must be the TaskResponse built from the frame just read", send.span)
     # the TaskResponse is built from the polled read future of this iteration: every path from the send back to itself passes the read
     reach = b.reachable_after(send.bb, removed_nodes=[reads[0].bb])
     r.instance("fresh-read-per-delivery", send.bb not in reach, "each delivery must be preceded by a fresh read_response_frame", send.span)
@@ -325,11 +353,11 @@ AWAIT_PLUMBING = ("core::future::into_future::IntoFuture::into_future", "core::p
 
 def r10(ctx, facts):
     r = ctx.rule("R10", "a frame read, once started, is driven to its end: the reader awaits read_response_frame directly (never under a timeout / select)", floor=1)
-    b = facts.one(r"^scylla::network::connection::Connection::reader::\{closure#0\}$")
-    reads = [c for bb, c in b.calls() if bb in b.live_blocks and (c.name or "").endswith("frame::read_response_frame")]
-    if not reads:
+    b0 = facts.one(r"^scylla::network::connection::Connection::reader::\{closure#0\}$")
+    chain = frame_source(facts, b0)
+    if not chain:
         raise AnchorLost("Connection::reader: call of frame::read_response_frame not found")
-    for c in reads:
+    for b, c in chain:
         work, seen, escapes = [c.dest[0]], set(), []
         while work:
             l = work.pop()
